@@ -36,15 +36,44 @@ def okS4L (ps : List String) : List X.Stmt → Bool
   | s :: ss => okS4 ps s && okS4L ps ss
 end
 
-/-- The first actual is a call (any callee, call-free actuals), all others are constants. -/
-def firstCallArgs (ps : List String) (ρ : String → Option Word) : List X.Expr → Bool
-  | a :: as => callE ps a && as.all (isConstL ρ)
-  | [] => false
+/-- Expressions with one call (`callOk` decides which calls) under monadic operators and under
+    arithmetic / relational operators whose other operand is a constant. -/
+def ipE (ρ : String → Option Word) (callOk : X.Expr → Bool) : X.Expr → Bool
+  | .un _ e => ipE ρ callOk e
+  | .bin op l r => isArith op && ((isConstL ρ l && ipE ρ callOk r) || (ipE ρ callOk l && isConstL ρ r))
+  | .call g args => callOk (.call g args)
+  | .syscall id args => callOk (.syscall id args)
+  | _ => false
 
-/-- The actuals of a call: call-free; or (class v3) with calls of pure functions; or one call in
-    first position next to constants. -/
+/-- `2(args)`, or a call through a constant whose value is 2, with call-free actuals. -/
+def sysE (ρ : String → Option Word) : X.Expr → Bool
+  | .syscall id args => decide (id = 2) && args.all pureE
+  | .call g args => decide (ρ g = some 2) && args.all pureE
+  | _ => false
+
+mutual
+/-- The class of expressions with ONE path of calls of any callee: a call of a user function
+    (`ps`) whose actuals are call-free, or (class v3, `pk`) have calls of pure functions only, or are
+    constants except one that is again of this class; system call 2 with call-free actuals; monadic
+    operators, and arithmetic / relational operators whose other operand is a constant, over it. -/
+def ipE5 (pk : Bool) (ps imp : List String) (ρ : String → Option Word) : X.Expr → Bool
+  | .un _ e => ipE5 pk ps imp ρ e
+  | .bin op l r => isArith op && ((isConstL ρ l && ipE5 pk ps imp ρ r) || (ipE5 pk ps imp ρ l && isConstL ρ r))
+  | .call g args =>
+    (ps.contains g && (args.all pureE || (pk && args.all (ppE ps imp)) || oneImp5 pk ps imp ρ args)) ||
+    (decide (ρ g = some 2) && args.all pureE)
+  | .syscall id args => decide (id = 2) && args.all pureE
+  | _ => false
+/-- Exactly one actual is of the class `ipE5`, all the others are constants. -/
+def oneImp5 (pk : Bool) (ps imp : List String) (ρ : String → Option Word) : List X.Expr → Bool
+  | [] => false
+  | a :: as => (ipE5 pk ps imp ρ a && as.all (isConstL ρ)) || (isConstL ρ a && oneImp5 pk ps imp ρ as)
+end
+
+/-- The actuals of a call: call-free; or (class v3) with calls of pure functions; or constants
+    except one actual of the class `ipE5`. -/
 def argsOk5 (pk : Bool) (ps imp : List String) (ρ : String → Option Word) (args : List X.Expr) : Bool :=
-  args.all pureE || (pk && args.all (ppE ps imp)) || firstCallArgs ps ρ args
+  args.all pureE || (pk && args.all (ppE ps imp)) || oneImp5 pk ps imp ρ args
 
 /-- A call of one of the procedures `ps` with such actuals. -/
 def callE5 (pk : Bool) (ps imp : List String) (ρ : String → Option Word) : X.Expr → Bool
@@ -57,23 +86,19 @@ theorem callE_callE5 (pk : Bool) (ps imp : List String) (ρ : String → Option 
   simp only [callE5, argsOk5, Bool.and_eq_true, Bool.or_eq_true, List.all_eq_true, List.contains_iff_mem]
   exact ⟨h.1, Or.inl (Or.inl h.2)⟩
 
-/-- Expressions with one call (`callOk` decides which calls) under monadic operators and under
-    arithmetic / relational operators whose other operand is a constant. -/
-def ipE (ρ : String → Option Word) (callOk : X.Expr → Bool) : X.Expr → Bool
-  | .un _ e => ipE ρ callOk e
-  | .bin op l r => isArith op && ((isConstL ρ l && ipE ρ callOk r) || (ipE ρ callOk l && isConstL ρ r))
-  | .call g args => callOk (.call g args)
-  | _ => false
-
 /-- A right-hand side: call-free, one call, (class v3, `pk`) operators over calls of pure
-    functions, or one call of any callee under operators whose other operands are constants. -/
+    functions, or an expression of the class `ipE5`. -/
 def rhs5 (pk : Bool) (ps imp : List String) (ρ : String → Option Word) (e : X.Expr) : Bool :=
-  pureE e || callE5 pk ps imp ρ e || (pk && ppE ps imp e) || ipE ρ (callE5 pk ps imp ρ) e
+  pureE e || callE5 pk ps imp ρ e || (pk && ppE ps imp e) || ipE5 pk ps imp ρ e
 
-/-- A condition: call-free, (class v3) operators over calls of pure functions, or one call of any
-    callee under operators whose other operands are constants. -/
+/-- A condition: call-free, (class v3) operators over calls of pure functions, or an expression of
+    the class `ipE5`. -/
 def cond5 (pk : Bool) (ps imp : List String) (ρ : String → Option Word) (e : X.Expr) : Bool :=
-  pureE e || (pk && ppE ps imp e) || ipE ρ (callE5 pk ps imp ρ) e
+  pureE e || (pk && ppE ps imp e) || ipE5 pk ps imp ρ e
+
+/-- The actuals of a system call: call-free, or constants except one actual of the class `ipE5`. -/
+def sysArgs5 (pk : Bool) (ps imp : List String) (ρ : String → Option Word) (args : List X.Expr) : Bool :=
+  args.all pureE || oneImp5 pk ps imp ρ args
 
 /-- A name the constants `ρ` make a system-call number. -/
 def valSys (ρ : String → Option Word) (f : String) : Bool :=
